@@ -99,6 +99,31 @@ def main():
                 det = '\n\n'.join(b for b in r['error_blocks'])
                 violations.append(dict(obligation=ob['name'], engine='verus', detail=det[-6000:], errors=o.get('errors', []), playback=None, file=r['file']))
 
+    # ---------------- Verus region probes: the unit re-verified WITHOUT the line that excludes a known-finding
+    # region; a failure of the named function means the region is (still) reachable and failing
+    for fid, pr in spec.get('verus_probes', {}).items():
+        tpl = os.path.join(VERIF, 'contracts', pr['unit'] + '.vtpl')
+        try:
+            r = verus_unit.check_unit(pr['unit'], tpl, os.path.join(VERIF, 'build', 'verus'), repo=REPO,
+                                      drop_lines=[pr['drop_line']], crate=pr['unit'] + '_probe')
+        except ExtractError as e:
+            undecided.append('verus probe %s: %s' % (fid, e))
+            continue
+        cmds.append(r['cmd'])
+        if r['status'] == 'undecided':
+            undecided.append('verus probe %s: %s' % (fid, r['errors'][-800:]))
+            continue
+        failed = [o['name'] for o in r['obligations'] if not o['success']]
+        present = any(re.search(pr['fn'], n) for n in failed)
+        obligations.append(dict(name='verus-probe:%s' % fid, engine='verus', kind='cover', status='ok',
+                                note='region probe for %s: %s' % (fid, 'reachable (obligation fails without the exclusion)' if present else 'unreachable')))
+        if present:
+            if fid in known_ids:
+                findings_seen.append(known_ids[fid])
+            else:
+                violations.append(dict(obligation='verus-probe:' + fid, engine='verus', playback=None, file=r['file'],
+                                       detail='finding region %s is reachable but not listed in known_findings.json\n' % fid + '\n\n'.join(r['error_blocks'])[-4000:]))
+
     # ---------------- Kani harnesses
     hs = list(spec.get('kani', {}).get('quick', []))
     if tier == 'thorough':
